@@ -506,6 +506,10 @@ def check(run):
     nown = owned_completions_rule(run)
     if nown < 20:
         run.broke('only %d completions bound to socks_connection member functions found (about 40 confirmed by hand)' % nown)
+    run.clause('no datagram or request makes the proxy throw: address::to_v4()/to_v6() are evaluated only under a test of the address family (an exception leaving a completion leaves simulation::run() and takes every other connection with it)')
+    ncast = engines.address_casts_guarded(run, [g_ for g_ in fx.repo_functions() if g_.file.endswith('socks_server.cpp')])
+    if ncast < 3:
+        run.broke('fewer than 3 address family casts in socks_server.cpp (%d)' % ncast)
     run.clause('no read of zero bytes: a field whose length comes from the client (number of methods, host-name length minus what was read already) is read only when something is left to read - the simulated socket parks an empty read until the next packet, and the client that sent a complete request waits forever for its reply')
     nz = engines.reads_never_empty(run, [g_ for g_ in fx.repo_functions() if q.top_function(fx, g_).cls == C], rule='R4')
     if nz < 2:
